@@ -106,8 +106,11 @@ Section Render.
   (* barWriteRunes, repaired (#15): nothing is drawn for a maximum <= 0 *)
   Definition bar_blocks (val maxVal maxLen : Z) : Z :=
     if maxVal <=? 0 then 0 else Z.quot (Z.min val maxVal * maxLen) maxVal.
-  Definition bar_runes (c : N) (val maxVal maxLen : Z) : result str :=
-    Ok (rep (bar_blocks val maxVal maxLen) c).
+  (* at most [limit] runes (repair C14-stacked-negative); [bar_written] is the returned count *)
+  Definition bar_written (val maxVal maxLen limit : Z) : Z :=
+    Z.max 0 (Z.min (bar_blocks val maxVal maxLen) limit).
+  Definition bar_runes (c : N) (val maxVal maxLen limit : Z) : result str :=
+    Ok (rep (bar_written val maxVal maxLen limit) c).
   (* the code as it is in the pinned tree (used only to state what the repair changes) *)
   Definition bar_runes_unrepaired (c : N) (val maxVal maxLen : Z) : result str :=
     if maxVal =? 0 then Panic else Ok (rep (Z.quot (Z.min val maxVal * maxLen) maxVal) c).
@@ -132,23 +135,25 @@ Section Render.
     if col then c <- group_color i ;; Ok (wrap c [if uni then fullBlock else nonUnicodeBlock])
     else match nth_error barAscii (i mod length barAscii) with Some r => Ok [r] | None => Panic end.
 
-  (* BarWriteStacked *)
-  Fixpoint bar_stacked_from (i : nat) (maxVal maxLen : Z) (vals : list Z) : result str :=
+  (* BarWriteStacked, repaired (C14-stacked-negative): the segments share the width — each one is
+     cut to what is left of the bar *)
+  Fixpoint bar_stacked_from (i : nat) (maxVal maxLen remaining : Z) (vals : list Z) : result str :=
     match vals with
     | [] => Ok []
     | v :: r =>
         seg <- (if col then
                   c <- group_color i ;;
-                  b <- bar_runes (if uni then fullBlock else nonUnicodeBlock) v maxVal maxLen ;;
+                  b <- bar_runes (if uni then fullBlock else nonUnicodeBlock) v maxVal maxLen remaining ;;
                   Ok (cwrite c b)
                 else match nth_error barAscii (i mod length barAscii) with
-                     | Some ch => bar_runes ch v maxVal maxLen
+                     | Some ch => bar_runes ch v maxVal maxLen remaining
                      | None => Panic
                      end) ;;
-        rest <- bar_stacked_from (S i) maxVal maxLen r ;;
+        rest <- bar_stacked_from (S i) maxVal maxLen (remaining - bar_written v maxVal maxLen remaining) r ;;
         Ok (seg ++ rest)
     end.
-  Definition bar_stacked := bar_stacked_from 0.
+  Definition bar_stacked (maxVal maxLen : Z) (vals : list Z) : result str :=
+    bar_stacked_from 0 maxVal maxLen maxLen vals.
 
   (* HeatWrite / SparkWrite *)
   Definition heat_idx (u : Q) : Z :=
